@@ -322,6 +322,11 @@ func (f *simFile) Sync() error {
 	if act == actErrAfter || act == actErrMid {
 		return f.g.injected(c, syscall.EIO)
 	}
+	if f.g.ex.conc != nil {
+		// the event at which this batch became durable: an append may be visible
+		// to readers from here on, never earlier
+		f.g.ex.conc.syncStep = f.g.ex.tick()
+	}
 	return nil
 }
 
